@@ -12,6 +12,7 @@ CPython on real values -- one text, two interpretations.
   dec_<k>(locals...)                  termination measure of the k-th loop
   types = {"param": Ty}               static types of parameters (and of locals pyvc cannot infer)
   ret = Ty                            return type (needed where the function is *called* modularly)
+  region = (start, end|None), region_params = [...]   verify only a statement range of a large function (see Contract)
 """
 from __future__ import annotations
 
@@ -21,6 +22,7 @@ from types import SimpleNamespace
 CONTRACTS: dict = {}
 SPECS: dict = {}
 LEMMAS: dict = {}
+REGIONS: dict = {}   # contract key -> (start line text, end line text | None, [free variable names])
 
 
 class Contract:
@@ -59,6 +61,13 @@ class Contract:
         self.self_type = d.get("self_type")
         self.bounded_only = bool(d.get("bounded_only", False))
         self.opts = dict(d.get("opts", {}))
+        # region contract: only the statements of the function from the one whose first source line (stripped) is
+        # region[0] up to (excluding) the one starting with region[1] (None: to the end of that statement list) are
+        # verified, as a function of the free variables `region_params` (their declared types are ASSUMPTIONS about
+        # what the code before the region establishes)
+        self.region = d.get("region")
+        if self.region is not None:
+            REGIONS[key] = (self.region[0], self.region[1], list(d.get("region_params", [])))
 
 
 def _fn(f):
